@@ -18,13 +18,19 @@ EXTENDS ViewAlgebra
 
 CONSTANTS Casts, PostOps, MaxPost
 
+(* units (shorts) per record: 2 for S = {short a; short b;}; the run with three-short records (RecUnits3 substituted in the cfg)    *)
+(* reinterprets them as pairs of shorts -- element sizes 6 and 4 bytes, neither a multiple of the other                          *)
+RecUnits  == 2
+RecUnits3 == 3
+PairCasts == {"reint_pair", "reint_pair_const", "reint_pair_rv"}
+
 VARIABLES cast,    \* "none" until the cast is applied
           post     \* operations applied after the cast
 pvars == <<root, abs, impl, path, cast, post>>
 
-UnitA(c) == 2 * c
-UnitB(c) == 2 * c + 1
-ValAt(u) == IF u % 2 = 0 THEN 100 + (u \div 2) ELSE 200 + ((u - 1) \div 2)
+UnitA(c) == RecUnits * c
+UnitB(c) == RecUnits * c + 1
+ValAt(u) == 100 * ((u % RecUnits) + 1) + (u \div RecUnits)      \* member a = 100 + cell, b = 200 + cell, (c = 300 + cell)
 
 Front(t) == SubSeq(t, 1, Len(t) - 1)
 
@@ -35,7 +41,7 @@ CastF(v, c) ==
   CASE c \in {"member_a", "member_a_const", "member_a_rv"} -> Mk(v.shape, v.first, LAMBDA t : UnitA(v.cell[t]))
     [] c \in {"member_b", "member_b_const", "member_b_rv"} -> Mk(v.shape, v.first, LAMBDA t : UnitB(v.cell[t]))
     \* reinterpret_array_cast<int>(): the whole record as one 32-bit element, in place
-    [] c \in {"reint_int", "reint_int_const", "reint_int_rv"}  -> Mk(v.shape, v.first, LAMBDA t : UnitA(v.cell[t]))
+    [] c \in {"reint_int", "reint_int_const", "reint_int_rv"} \cup PairCasts -> Mk(v.shape, v.first, LAMBDA t : UnitA(v.cell[t]))
     \* reinterpret_array_cast<short>(2): a trailing dimension of size 2 over each record's units
     [] c \in {"reint_short2", "reint_short2_const", "reint_short2_rv"} -> Mk(v.shape \o <<2>>, v.first \o <<0>>, LAMBDA t : 2 * v.cell[Front(t)] + t[Len(t)])
     \* identity on element identity
@@ -48,7 +54,7 @@ CastF(v, c) ==
 ValKind(c) ==
   CASE c \in {"member_a", "member_a_const", "member_a_rv", "member_b", "member_b_const", "member_b_rv",
                  "reint_short2", "reint_short2_const", "reint_short2_rv", "transformed_refb"} -> "short"
-    [] c \in {"reint_int", "reint_int_const", "reint_int_rv"} -> "int"
+    [] c \in {"reint_int", "reint_int_const", "reint_int_rv"} \cup PairCasts -> "int"
     [] c \in {"static_const", "const_cast", "as_const", "convert_array"} -> "record_a"   \* observed through its member a
     [] c = "transformed_a1" -> "lazy_a_plus_1"
 
@@ -66,7 +72,10 @@ PCast ==
   /\ cast = "none"
   /\ Dim(abs) >= 1 /\ Dim(abs) <= 3
   /\ ~IsEmptyV(abs)
-  /\ \E c \in Casts : cast' = c /\ abs' = CastF(abs, c)
+  /\ \E c \in Casts :
+       \* a cast between element sizes 6 and 4 is admissible when every stride (in records) is even: stride * 6 is a multiple of 4
+       /\ (c \in PairCasts => RecUnits = 3 /\ \A d \in 1..Dim(abs) : impl.lay[d].s % 2 = 0 /\ impl.lay[d].o % 2 = 0)
+       /\ cast' = c /\ abs' = CastF(abs, c)
   /\ UNCHANGED <<root, impl, path, post>>
 PPost ==
   /\ cast # "none"
@@ -85,7 +94,7 @@ PSpec == PInit /\ [][PNext]_pvars
 PVW == <<root, abs, cast, post>>
 
 (* every designated unit lies inside the root's storage *)
-PInBounds == cast = "none" \/ \A t \in DOMAIN abs.cell : abs.cell[t] >= 0 /\ abs.cell[t] < 2 * Prod(root.shape)
+PInBounds == cast = "none" \/ \A t \in DOMAIN abs.cell : abs.cell[t] >= 0 /\ abs.cell[t] < RecUnits * Prod(root.shape)
 
 PExpect == [root |-> root, path |-> path, cast |-> cast, post |-> post, shape |-> abs.shape,
             units |-> ElementsOf(abs),
